@@ -229,6 +229,37 @@ def check_method(C, cls_label, cname, name, m, inst, md, viols, nested_cls):
                     viols.append(violation(PROP, S("falsy_constructor_value_not_stored", attr_owner="parent" if a.owner is not cls else "own"),
                                            {"attr": attr, "given": repr(fv), "stored": repr(got)[:80]}, case(how="falsy", keyword=attr)))
                 break
+    # (5c) defaults are as shown: an advertised default that is a plain value is what an instance built without that
+    #      keyword holds (factories and missing values are advertised as MISSING and are not judged here)
+    if name == "__init__":
+        import spec_classes as _sc
+
+        cls = type(inst)
+        shown = {pn: p.default for pn, p in inspect.signature(cls.__init__).parameters.items()
+                 if pn in md.attrs and p.default is not inspect.Parameter.empty and p.default is not _sc.MISSING}
+        if "__init__" not in vars(cls):
+            shown = {}  # an undecorated subclass inherits its parent's constructor OBJECT, signature included: what that signature
+            #             shows are the parent's defaults (the subclass's own re-defaults are C09's subject)
+        if shown:
+            kw = {md.key: vars(inst)[md.key]} if md.key and md.key in vars(inst) and md.key not in shown else {}
+            try:
+                o = cls(**kw)
+            except Exception:
+                o = None
+            if o is not None:
+                for pn, dv in shown.items():
+                    a = md.attrs[pn]
+                    if a.prepare or a.prepare_item or a.is_masked:
+                        continue
+                    n_checks += 1
+                    got = vars(o).get(pn, "<missing>")
+                    try:
+                        same = got == dv and type(got) is type(dv)
+                    except Exception:
+                        same = True
+                    if not same:
+                        viols.append(violation(PROP, S("advertised_default_is_not_the_real_default"),
+                                               {"attr": pn, "advertised": repr(dv)[:80], "real": repr(got)[:80]}, case(how="default", keyword=pn)))
     # (6) nested keywords one-to-one with the init-enabled attributes of the nested class
     if nested_cls is not None and name not in ("reset",) and not name.startswith(("reset_", "without_")):
         nmd = nested_cls.__spec_class__
